@@ -21,7 +21,7 @@ Inductive okind := KLeaf | KPad | KCat | KRep | KRRep | KUni.
 Definition local_cost (kd : okind) (child_sizes : list Z) (k d : Z) : Z :=
   match kd with
   | KLeaf => 0
-  | KPad => zsum child_sizes
+  | KPad => 0   (* iterates over the child residues (at most lcm(alignment, divisor) of them) without itertools *)
   | KCat => zprod child_sizes
   | KRep => mchoose (Z.to_nat (zsum child_sizes)) (Z.to_nat (equiv_k k d))
   | KRRep => mchoose_upto (Z.to_nat (zsum child_sizes)) (Z.to_nat (equiv_k k d))
